@@ -185,6 +185,12 @@ def unused_table(run):
                             ('comparison-chain', 'v_ = c_ < c_ < (w_ := v_)'), ('tuple-target', 'v_, u_ = c_ or (w_ := v_), 1'), ('chained-targets', 'u_ = v_ = c_ or (w_ := v_)')):
             one('rebinding-whose-branching-value-reads-the-old-binding[%s]' % label,
                 'def f_(c_):\n    v_ = 0\n    %s\n    return v_, locals()\n' % stmt, [], path)
+        # each binding is reported at most once, wherever its expression stands
+        one('lambda-parameter-in-a-boolean-expression', 'def f_(cb_):\n    cb_ = cb_ or (lambda unused_v: None)\n    return cb_\n', [('W01', 'Unused name: unused_v', 2, 25)], path)
+        one('comprehension-variable-in-a-boolean-expression', 'def f_(a_, b_):\n    return a_ and [1 for unused_v in b_]\n', [('W01', 'Unused name: unused_v', 2, 25)], path)
+        one('walrus-in-the-first-operand', 'def f_(x_):\n    return (unused_v := x_) or 0\n', [('W01', 'Unused name: unused_v', 2, 12)], path)
+        one('lambda-parameter-in-a-conditional-expression', 'def f_(c_):\n    return (lambda unused_v: 1) if c_ else (lambda w_: w_)\n', [('W01', 'Unused name: unused_v', 2, 19)], path)
+        one('comprehension-variable-in-a-comparison-chain', 'def f_(a_):\n    return a_ < [0 for unused_v in a_] < a_\n', [('W01', 'Unused name: unused_v', 2, 23)], path)
         # locals() reads every local of the function, also one bound in several branches
         one('locals-reads-a-name-bound-in-two-branches', 'def f_(c_):\n    if c_:\n        unused_v = 1\n    else:\n        unused_v = 2\n    return locals()\n', [], path)
         one('locals-reads-a-name-bound-in-one-branch', 'def f_(c_):\n    if c_:\n        unused_v = 1\n    return locals()\n', [], path)
